@@ -228,11 +228,13 @@ func (k Keeper) removeDataExpireBlock(ctx sdk.Context, dataId string, expiredAt 
 		return
 	}
 
-	for idx, id := range expiredData.Data {
-		if id == dataId {
-			expiredData.Data = append(expiredData.Data[:idx], expiredData.Data[idx+1:]...)
+	remaining := make([]string, 0, len(expiredData.Data))
+	for _, id := range expiredData.Data {
+		if id != dataId {
+			remaining = append(remaining, id)
 		}
 	}
+	expiredData.Data = remaining
 
 	if len(expiredData.Data) == 0 {
 		k.RemoveExpiredData(ctx, expiredData.Height)
